@@ -19,6 +19,10 @@
 
    Platform: x86-64 SysV LP64 (sizes of the primitive types are parameters of the type syntax). *)
 From Coq Require Import ZArith List Bool Lia.
+(* the bound expressions of _cffi_to_c_SIGNED_FN / _cffi_to_c_UNSIGNED_FN are NOT restated here: they are the C
+   expressions regenerated from src/c/_cffi_backend.c into C03/Gen.v (tools/props/c03_regen.py, re-run by
+   ./check C13), evaluated by the C-expression interpreter C03/CExpr.v *)
+From Cffi Require C03.CExpr C03.Gen C03.Model.      (* no Import: qualified names only *)
 Import ListNotations.
 Open Scope Z_scope.
 
@@ -216,23 +220,30 @@ Definition ffi_conv_prim (p : prim) (x : pyval) : conv :=
   end.
 
 (* ------------------------------------------------------------------ API path: the exported helpers *)
+(* value of a regenerated bound expression for SIZE = 8*size (0 if its evaluation is undefined in C) *)
+Definition src_value (size : Z) (c : C03.CExpr.binop * C03.CExpr.cexpr) : Z :=
+  match C03.CExpr.ceval (C03.Model.env_size (8 * size)) (snd c) with Some (_, z) => z | None => 0 end.
+Definition no_check : C03.CExpr.binop * C03.CExpr.cexpr := (C03.CExpr.BGt, C03.CExpr.ELit C03.CExpr.TInt 0).
+Definition i_hi (size : Z) : Z := src_value size (nth 0 C03.Gen.signed_checks no_check).     (* tmp > (PY_LONG_LONG)((1ULL<<(SIZE-1)) - 1) *)
+Definition i_lo (size : Z) : Z := src_value size (nth 1 C03.Gen.signed_checks no_check).     (* tmp < (PY_LONG_LONG)(0ULL-(1ULL<<(SIZE-1))) *)
+Definition u_hi (size : Z) : Z := src_value size (nth 0 C03.Gen.unsigned_checks no_check).   (* tmp > ~(((unsigned PY_LONG_LONG)-2) << (SIZE-1)) *)
+
 (* _cffi_to_c_SIGNED_FN(RETURNTYPE, SIZE)  (SIZE in bits = 8*size) *)
 Definition to_c_i (size : Z) (x : pyval) : ret :=
   let r := my_as_longlong x in
   let tmp := rval r in
-  if ((2 ^ (8 * size - 1) - 1 <? tmp) || (tmp <? - 2 ^ (8 * size - 1))) then
+  if ((i_hi size <? tmp) || (tmp <? i_lo size)) then
     match rpend r with
     | None => err (-1) OverflowError            (* return (RETURNTYPE)_convert_overflow(...) *)
     | Some e => mkret tmp (Some e)
     end
   else mkret tmp (rpend r).
 
-(* _cffi_to_c_UNSIGNED_FN: the bound is ~(((unsigned long long)-2) << (SIZE-1)) *)
-Definition u_bound (size : Z) : Z := wrapU 8 (Z.lnot (wrapU 8 (Z.shiftl (ULLMAX - 1) (8 * size - 1)))).
+(* _cffi_to_c_UNSIGNED_FN *)
 Definition to_c_u (size : Z) (x : pyval) : ret :=
   let r := my_as_ulonglong x in
   let tmp := rval r in
-  if u_bound size <? tmp then
+  if u_hi size <? tmp then
     match rpend r with
     | None => err (-1) OverflowError
     | Some e => mkret tmp (Some e)
@@ -583,25 +594,42 @@ Definition regions (rsize ralign : Z) (args : list (Z * Z)) : list (Z * Z) :=
   (0, Z.of_nat (length args) * 8) :: (res_off L, res_len L) :: combine (arg_offs L) (map fst args).
 
 (* ------------------------------------------------------------------ variadic part (cdata_call:3112) *)
-(* only cdata are accepted; char and integer cdata narrower than int are passed as int *)
+(* only cdata are accepted.  The ctype handed to libffi for a primitive cdata (cdata_call:3116):
+       if (ct->ct_flags & (CT_PRIMITIVE_CHAR | CT_PRIMITIVE_UNSIGNED | CT_PRIMITIVE_SIGNED))
+           if (ct->ct_size < sizeof(int)) ct = _get_ct_int();
+   (_Bool is CT_PRIMITIVE_UNSIGNED); every other primitive keeps its own type — including float *)
+Definition variadic_type (p : prim) : prim :=
+  match p with
+  | PI s sg => if s <? 4 then PI 4 true else PI s sg
+  | PB => PI 4 true
+  | PC s => if s <? 4 then PI 4 true else PC s
+  | other => other
+  end.
+
+(* SPEC (C11 6.5.2.2p6-7): the default argument promotions — integer promotions, and float -> double *)
+Definition c_default_promotion (p : prim) : prim :=
+  match p with
+  | PI s sg => if s <? 4 then PI 4 true else PI s sg      (* every type narrower than int fits in int *)
+  | PB => PI 4 true
+  | PC s => if s <? 4 then PI 4 true else PC s            (* char, char16_t (uint_least16_t); wchar_t/char32_t stay *)
+  | PF32 => PF64
+  | PF64 => PF64
+  | PF80 => PF80
+  end.
+
+(* the value is then written by convert_from_object(data, <that ctype>, obj), like a declared argument *)
 Definition variadic_conv (x : pyval) : conv :=
   match x with
-  | PyCPrim (PI s sg) bits _ =>
-      if s <? 4 then COk (CInt 4 (wrapU 4 (if sg then wrapS s bits else wrapU s bits)))
-      else COk (CInt s (wrapU s bits))
-  | PyCPrim PB bits _ => COk (CInt 4 bits)
-  | PyCPrim (PC 1) bits _ => COk (CInt 4 bits)
-  | PyCPrim (PC 2) bits _ => COk (CInt 4 bits)
-  | PyCPrim (PC s) bits _ => COk (CInt s bits)
-  | PyCPrim PF64 bits _ => COk (CInt 8 bits)
-  | PyCPrim PF32 bits _ => COk (CInt 4 bits)
-  | PyCPrim PF80 _ b64 => COk (CLD b64)
+  | PyCPrim p _ _ => ffi_conv_prim (variadic_type p) x
   | PyCPtr _ null mem => COk (if null then CNull else CMem mem)
-  | PyCArr _ mem => COk (CMem mem)
+  | PyCArr _ mem => COk (CMem mem)                        (* an array cdata is passed as a pointer *)
   | PyCStruct _ vals => COk (CStructV (map (fun v => CInt 0 v) vals))
   | PyCFn => COk CFun
-  | _ => CErr TypeError
+  | _ => CErr TypeError                                   (* "needs to be a cdata object" *)
   end.
+
+Definition is_cdata (x : pyval) : bool :=
+  match x with PyCPrim _ _ _ | PyCPtr _ _ _ | PyCArr _ _ | PyCStruct _ _ | PyCFn => true | _ => false end.
 
 (* the types of the variadic part are decided (and can fail) before any argument is converted *)
 Fixpoint variadic_types_ok (vs : list pyval) : bool :=
